@@ -135,3 +135,9 @@ def untraced():
     except Exception:
         return contextlib.nullcontext()
     return NoTracing() if is_tracing() else contextlib.nullcontext()
+
+# ------------------------------------------------------------------ logging stub
+# Log *records* are dropped (formatting an emitted record would realise every symbolic value inside the message);
+# the f-strings that build the messages in bromelia still execute, symbolically (plug-in P5 for .hex()).
+import logging as _logging
+_logging.disable(_logging.CRITICAL)
